@@ -1,5 +1,6 @@
-(** C04 — proofs about [Transport]: safety of every history under the guard, the closed form of
-    the loop wraps, the refutations for each guard clause. *)
+(** C04 — proofs about [Transport]: the invariant, the closed form of the loop wraps of increment /
+    decrement (and of the seek before its repair), the refutations for each guard clause.  The seek
+    as it is now, and the safety of every history, are in [C04.ProofsSeek]. *)
 From Coq Require Import ZArith List Bool Lia.
 From KV Require Import Base.Outcome C04.Transport.
 Import ListNotations.
@@ -16,10 +17,10 @@ Definition wf_transport (B : Z) (t : transport) : Prop :=
     ones included (they are filtered out) *)
 Definition req_loop (B : Z) (lr : option (Z * Z)) : Prop :=
   match lr with None => True | Some (ls, le) => 0 <= ls /\ le <= B end.
-(** a seek target is a [usize] below the iteration bound *)
-Definition wf_top (B : Z) (fuel : nat) (o : top) : Prop :=
+(** a seek target is ANY [usize] *)
+Definition wf_top (B : Z) (o : top) : Prop :=
   match o with
-  | TSeek p => 0 <= p /\ p < Z.of_nat fuel
+  | TSeek p => 0 <= p <= u64_max
   | TSetLoop lr => req_loop B lr
   | _ => True
   end.
@@ -148,46 +149,6 @@ Section Safe.
     - cbn [obind]. apply Hgen; lia.
   Qed.
 
-  Lemma seek_safe : forall t i, wf_transport B t -> 0 <= i -> i < Z.of_nat fuel ->
-    exists t', transport_seek_to fuel t i N = Ok t' /\ wf_transport B t' /\ t_loop t' = t_loop t.
-  Proof.
-    intros [p lr pl] i (Hp & Hpl & Hlr) Hi Hif. cbn [t_pos t_loop t_playing] in *.
-    unfold transport_seek_to. cbn [t_pos t_loop t_playing].
-    assert (Hgen : forall q, 0 <= q ->
-      exists t', Ok {| t_pos := q; t_loop := lr; t_playing := if q >=? N then false else pl |} = Ok t' /\
-                 wf_transport B t' /\ t_loop t' = lr).
-    { intros q Hq0. eexists; split; [reflexivity|]. split; [|reflexivity].
-      repeat split; cbn [t_pos t_loop t_playing]; try lia; auto.
-      all: try (destruct (Z.geb_spec q N); [discriminate | lia]). }
-    destruct lr as [[ls le]|].
-    - destruct Hlr as (H0 & H1 & H2). destruct (Z.gtb_spec i p).
-      + destruct (wrap_down_spec fuel i ls le) as (q & Hq & Hq0 & _); try lia.
-        rewrite Hq. cbn [obind]. apply Hgen; lia.
-      + destruct (wrap_up_lt_spec fuel i ls le) as (q & Hq & Hq0 & _); try lia.
-        rewrite Hq. cbn [obind]. apply Hgen; lia.
-    - cbn [obind]. apply Hgen; lia.
-  Qed.
-
-  Lemma tstep_safe : forall t o, wf_transport B t -> wf_top B fuel o ->
-    exists t', tstep fuel N t o = Ok t' /\ wf_transport B t'.
-  Proof.
-    intros t o Ht Ho. destruct o as [| |i|lr]; cbn [tstep].
-    - destruct (increment_safe t Ht) as (t' & H1 & H2 & _); eauto.
-    - destruct (decrement_safe t Ht) as (t' & H1 & H2 & _); eauto.
-    - destruct Ho as [Hi Hf]. destruct (seek_safe t i Ht Hi Hf) as (t' & H1 & H2 & _); eauto.
-    - eexists; split; [reflexivity|]. destruct Ht as (H1 & H2 & H3).
-      split; [exact H1|]. split; [exact H2|]. cbn [transport_set_loop_region t_loop].
-      apply filter_region_wf. exact Ho.
-  Qed.
-
-  Lemma trun_safe : forall ops t, wf_transport B t -> Forall (wf_top B fuel) ops ->
-    exists t', trun fuel N t ops = Ok t' /\ wf_transport B t'.
-  Proof.
-    induction ops as [|o ops IH]; intros t Ht Hops.
-    - exists t; split; [reflexivity | assumption].
-    - inversion Hops as [|? ? Ho Hops']; subst. cbn [trun].
-      destruct (tstep_safe t o Ht Ho) as (t1 & H1 & Ht1). rewrite H1. cbn [obind]. apply IH; assumption.
-  Qed.
 End Safe.
 
 (** [Transport::new]: any start position below the bound, any requested region *)
@@ -218,19 +179,6 @@ Proof.
     split; [reflexivity|]. split; [intros; split; reflexivity | discriminate].
 Qed.
 
-Lemma transport_safe_all :
-  forall (fuel : nat) (N B start : Z) (lr : option (Z * Z)) (reverse : bool) (ops : list top),
-    0 <= start -> start < B -> N <= B -> B < u64_max -> B < Z.of_nat fuel -> req_loop B lr ->
-    Forall (wf_top B fuel) ops ->
-    exists t', trun fuel N (transport_new start lr reverse N) ops = Ok t' /\
-               0 <= t_pos t' /\ (t_playing t' = true -> t_pos t' < B) /\ wf_loop B (t_loop t').
-Proof.
-  intros fuel N B start lr reverse ops H0 H1 H2 H3 H4 H5 H6.
-  destruct (transport_new_safe start lr reverse N B H0 H1 H2 H5) as (Hwf & _).
-  destruct (trun_safe fuel N B H2 H3 H4 ops _ Hwf H6) as (t' & Ht' & Hwf').
-  exists t'. split; [exact Ht'|]. exact Hwf'.
-Qed.
-
 (** ** what the repaired code does with the requests that used to hang or panic *)
 Lemma filter_region_empty : forall ls le, le <= ls -> filter_region (Some (ls, le)) = None.
 Proof. intros ls le H. cbn [filter_region]. destruct (Z.gtb_spec le ls); [lia | reflexivity]. Qed.
@@ -251,17 +199,6 @@ Proof.
   rewrite sub_chk_panic by lia. reflexivity.
 Qed.
 
-(** the property's own guard is the instance [B = N] *)
-Lemma transport_safe_guarded :
-  forall (fuel : nat) (N start : Z) (lr : option (Z * Z)) (reverse : bool) (ops : list top),
-    0 <= start -> start < N -> N < u64_max -> N < Z.of_nat fuel -> req_loop N lr ->
-    Forall (wf_top N fuel) ops ->
-    exists t', trun fuel N (transport_new start lr reverse N) ops = Ok t' /\
-               0 <= t_pos t' /\ (t_playing t' = true -> t_pos t' < N) /\ wf_loop N (t_loop t').
-Proof.
-  intros fuel N start lr reverse ops H0 H1 H2 H3 H4 H5.
-  apply (transport_safe_all fuel N N start lr reverse ops); try assumption. lia.
-Qed.
 Lemma transport_new_reverse_beyond_end : forall start lr N,
   0 <= start -> N <= start ->
   transport_new start lr true N = {| t_pos := 0; t_loop := filter_region lr; t_playing := false |}.
